@@ -65,6 +65,7 @@ theorem setCellVal_r (x : Ext) (c c' : XC) (v : Val) (h : setCellVal x c v = .ok
   cases v <;> simp only [setCellVal] at h
   case str s => split at h <;> (simp only [Except.ok.injEq] at h; subst h; rfl)
   case richErr => simp at h
+  case time isNum text nf nfMem => split at h <;> (simp only [Except.ok.injEq] at h; subst h; rfl)
   all_goals (simp only [Except.ok.injEq] at h; subst h; rfl)
 
 theorem setCellFormula_r (c : XC) (f : Bytes) : (setCellFormula c f).r = c.r := by
